@@ -98,6 +98,11 @@ CHECKS = {
          "Ed25519 constant-time, Ed25519+AllowVarTime and edwards25519vartime pairwise and against an affine twisted-Edwards model; P-256, bn256.G1, bn254.G1 against an affine Weierstrass model; kilic = circl = gnark on G1, G2, GT, scalar arithmetic, hash-to-curve outputs, 36 pairings e(aB1,bB2) and 24 BLS signatures on both groups; Ed25519 base multiplication vs crypto/ed25519 key derivation (24 seeds). ~1,700 expressions per group: seeds {O,B,s*B,Mul(s,nil),Hash(m),decoded forms}, all Add/Sub/Neg/Mul over them, results fed back once, accumulator (in-place) forms. Build variants: one transcript program (~29k lines: all groups, pairings, hashes, signatures, SetBytes at odd lengths, Pick) produced by the binaries built with no tag, -tags generic and -tags constantTime and compared on their common lines (28.9k / 5.9k).",
          "Trusted: math/big models with transcribed parameters and conventional base points; only values computed from reduced scalars and messages are compared; arm64 assembly absent.",
          "DESIGN.md §4 C18"),
+ "C20": ("model_checking",
+         "exhaustive enumeration of two-thread fork-join programs m1(O) || m2(O) over shared objects x unordered pairs of read-only methods, each decided by one run under the race detector in a binary built with pure-Go arithmetic (happens-before is schedule-independent for fork-join programs); results compared with sequential runs",
+         "7,000 programs: for each of the 20 groups a non-normalised sum, a decoded point, a product and a scalar, plus suites and their random streams (crypto/rand and Go-code readers), a public polynomial, Schnorr and BLS public keys on all 5 pairing suites, a BDN and a CoSi mask; every unordered pair (incl. m,m) of 13-17 read-only methods (encode, print, compare on either side, clone, Data, operand of Add/Sub/Neg/Mul/Set into a private receiver, Pair/ValidatePairing, Verify, Eval/Check/Commit, stream draws, mask accessors). The binary is built with -race -tags generic,purego so that the field arithmetic of kilic, gnark, bn256/bn254 and bigmod is instrumented Go instead of assembly.",
+         "Trusted: Go's race detector (limits: shadow-cell eviction, control flow depending on a racy read). Interleaving-dependent wrong results without a conflicting access pair are impossible; interleavings themselves are not enumerated in this tier.",
+         "DESIGN.md §4 C20"),
 }
 
 NOT_YET = "check not built yet in this round (planned: see DESIGN.md §4)"
